@@ -198,3 +198,107 @@ func isFieldWrite(info *types.Info, call *ast.CallExpr, field types.Object) bool
 	id, ok := call.Args[0].(*ast.Ident)
 	return ok && info.Uses[id] == field
 }
+
+// C05.R8 — the result files of a run hold the records of that run and nothing
+// else: every record file is opened in the non-append mode, and that mode
+// creates the file empty (O_TRUNC).  Without it a run that writes less than an
+// earlier run into the same folder (earlier end date, larger interval) keeps
+// the earlier run's tail: records after the end date, years never simulated.
+func c05FreshFiles(p *Prog, r *Report) {
+	r.Rule("C05.R8", "result files start empty: the default writer opens a non-append file with create + truncate + write-only and an append file with create + append + write-only, passes exactly those flags to the open call, and Run opens its daily, yearly and crop files in the non-append mode", 4)
+	fi := p.Funcs["hermes.DefaultFoutGenerator"]
+	if fi == nil {
+		r.Ob("writer", "-", false, "hermes.DefaultFoutGenerator not found")
+		return
+	}
+	info := fi.Pkg.TypesInfo
+	osConst := func(name string) (int64, bool) {
+		for _, imp := range fi.Pkg.Types.Imports() {
+			if imp.Path() == "os" {
+				if c, ok := imp.Scope().Lookup(name).(*types.Const); ok {
+					return constInt64(c.Val())
+				}
+			}
+		}
+		return 0, false
+	}
+	oCreate, _ := osConst("O_CREATE")
+	oTrunc, _ := osConst("O_TRUNC")
+	oAppend, _ := osConst("O_APPEND")
+	oWr, _ := osConst("O_WRONLY")
+	var appendObj, flagsObj types.Object
+	if ps := fi.Decl.Type.Params.List; len(ps) >= 2 {
+		for _, f := range ps {
+			for _, n := range f.Names {
+				if b, ok := info.Defs[n].Type().Underlying().(*types.Basic); ok && b.Kind() == types.Bool {
+					appendObj = info.Defs[n]
+				}
+			}
+		}
+	}
+	arms := map[bool]int64{}
+	armSeen := map[bool]bool{}
+	ast.Inspect(fi.Decl.Body, func(n ast.Node) bool {
+		as, ok := n.(*ast.AssignStmt)
+		if !ok || len(as.Lhs) != 1 || len(as.Rhs) != 1 {
+			return true
+		}
+		tv := info.Types[as.Rhs[0]]
+		if tv.Value == nil {
+			return true
+		}
+		if b, ok := tv.Type.Underlying().(*types.Basic); !ok || b.Info()&types.IsInteger == 0 {
+			return true
+		}
+		v, ok := constInt64(tv.Value)
+		if !ok {
+			return true
+		}
+		conds, _ := astPathConds(info, fi.Decl.Body, as)
+		if len(conds) != 1 || useObj(info, conds[0].E) != appendObj || appendObj == nil {
+			return true
+		}
+		flagsObj = useObj(info, as.Lhs[0])
+		arms[!conds[0].Neg] = v
+		armSeen[!conds[0].Neg] = true
+		return true
+	})
+	okNew := armSeen[false] && arms[false]&oCreate != 0 && arms[false]&oTrunc != 0 && arms[false]&oWr == oWr && arms[false]&oAppend == 0 && oTrunc != 0
+	r.Ob("writer:new-file", p.Pos(fi.Decl.Pos()), okNew, fmt.Sprintf("non-append flags %#x: create %v, truncate %v, append %v (must create and truncate: an existing longer file would keep its tail)", arms[false], arms[false]&oCreate != 0, arms[false]&oTrunc != 0, arms[false]&oAppend != 0))
+	okApp := armSeen[true] && arms[true]&oCreate != 0 && arms[true]&oAppend != 0 && arms[true]&oTrunc == 0
+	r.Ob("writer:append-file", p.Pos(fi.Decl.Pos()), okApp, fmt.Sprintf("append flags %#x: create %v, append %v, truncate %v", arms[true], arms[true]&oCreate != 0, arms[true]&oAppend != 0, arms[true]&oTrunc != 0))
+	// the flags variable is what OpenFile gets
+	okOpen := false
+	ast.Inspect(fi.Decl.Body, func(n ast.Node) bool {
+		if c, ok := n.(*ast.CallExpr); ok && len(c.Args) == 3 {
+			if f := callee(info, c); f != nil && f.FullName() == "os.OpenFile" && flagsObj != nil && useObj(info, c.Args[1]) == flagsObj {
+				if _, isParam := paramIndex(fi.Decl, useObj(info, c.Args[0])); isParam {
+					okOpen = true
+				}
+			}
+		}
+		return true
+	})
+	r.Ob("writer:open", p.Pos(fi.Decl.Pos()), okOpen, "the file named by the caller is opened with exactly the flags chosen above")
+	// Run's record files are opened non-append
+	rfi, lit := runClosure(p)
+	if rfi != nil && lit != nil {
+		rinfo := rfi.Pkg.TypesInfo
+		n, bad := 0, ""
+		ast.Inspect(lit.Body, func(nd ast.Node) bool {
+			c, ok := nd.(*ast.CallExpr)
+			if !ok || len(c.Args) != 2 {
+				return true
+			}
+			if f := callee(rinfo, c); f == nil || f.Name() != "OpenResultFile" {
+				return true
+			}
+			n++
+			if tv := rinfo.Types[c.Args[1]]; tv.Value == nil || tv.Value.String() != "false" {
+				bad += p.Pos(c.Pos()) + " "
+			}
+			return true
+		})
+		r.Ob("run:non-append", p.Pos(rfi.Decl.Pos()), n >= 3 && bad == "", fmt.Sprintf("%d result files opened by Run, opened in append mode: %s", n, orStr(bad, "none")))
+	}
+}
